@@ -278,6 +278,12 @@ func (r *Run) Finish(rule string) int {
 		cov["evaluations"] = r.counters["evaluations"]
 	}
 	cov["distinct_nontrivial"] = len(r.nontrivial)
+	for c := range r.nontrivial {
+		if strings.Contains(c, "|") {
+			rule += "; explored transitions also count as distinct non-trivial cases by (scenario, event kind, number of pod creations, pod deletions, other writes, error), trivial = a transition that writes nothing"
+			break
+		}
+	}
 	cov["rule"] = rule
 	if len(r.samples) == 0 {
 		r.samples = append(r.samples, "none recorded")
